@@ -363,6 +363,11 @@ def c10(res, tier, seed):
     mc(res, b, "req-te", REQ_TE, [1, 2, 3, 4], ["checkinit", "marshal", "uenc", "merge"], D(tier, 2, 3), nest_at=1, nest_fields=[1])
     # a oneof whose SECOND member carries the required field (F26: the table decoder consulted only the first member's isInit)
     mc(res, b, "req-oneof", REQ_ONEOF, [1, 2], ["checkinit", "marshal", "uenc", "merge"], D(tier, 2, 3), nest_at=2, nest_fields=[1])
+    # a map entry whose value occurs twice (complete, then adding a submessage that lacks its required field), once, and complete
+    # with the incomplete submessage in one occurrence, decoded with and without AllowPartial (F36; rv2.Top: map<int32, Val>)
+    mc(res, b, "req-mapval", "rv2.Top", [1], ["uwire", "uwstrict", "checkinit"], 2,
+       wire_recs=[[10, 10, 8, 7, 18, 2, 8, 1, 18, 2, 18, 0], [10, 6, 8, 7, 18, 2, 8, 1], [10, 8, 8, 7, 18, 4, 8, 1, 18, 0], [10, 4, 18, 2, 18, 0]],
+       max_recs=2, laws=["AllWellFormed"])
     mc2(tier, res, b, "req-t2", REQ_T2, [1, 2, 3], ["checkinit", "marshal", "uenc"], 2, nest_at=1, nest_fields=[1])
     finish(res, b, seed, tier, "mut=10,checkinit=4,marshal=3,unmarshal=4,rt=1,merge=1", types=REQ_TYPES, rotate=True)
 
@@ -473,6 +478,16 @@ def c17(res, tier, seed):
        2, nest_at=99, nest_fields=[1], wire_recs=[LAZY_RECS[i] for i in (0, 1, 2, 7, 5, 8)] if tier == "quick" else LAZY_RECS,
        max_recs=2, flavs=LAZY_FLAVS, laws=["AllWellFormed", "RoundTripLaw"])
     lazy_groups_config(res, b)
+    # a lazy field of a type with a required field, strict and partial: complete / incomplete / wrong-wire-type occurrences in every
+    # order - an incomplete one after a deferred one sends the decoder into its second pass (F38)
+    RL = "goproto.proto.testeditions.TestRequiredLazy"
+    mc(res, b, "lazy-later", "opaque." + RL, [1], ["uwire", "uwstrict", "rt"], 2, nest_at=1, nest_fields=[1],
+       wire_recs=[[10, 2, 8, 1], [10, 0], [8, 77]] + ([] if tier == "quick" else [[13, 7, 0, 0, 0]]), max_recs=3,
+       flavs=[("opaque." + RL, False), (RL, True)] + ([] if tier == "quick" else [(RL, False), ("hybrid." + RL, False)]), laws=["AllWellFormed"])
+    # a lazily decodable message used as a DELIMITED field (rv2.Top.grp: Lz), its lazy field twice (complete, then incomplete alone),
+    # followed by a sibling (F37)
+    mc(res, b, "lazy-in-group", "rv2.Top", [2, 3], ["uwire", "uwstrict", "rt"], 2,
+       wire_recs=[[19, 10, 2, 8, 1, 10, 2, 16, 2, 20], [24, 5], [19, 16, 1, 20], [19, 10, 2, 16, 2, 20]], max_recs=2, laws=["AllWellFormed"])
     # merging decodes (lazy then eager, eager then lazy) into one object: found F22
     mc(res, b, "lazy-merge", LAZY_BASE, [99], ["uwire", "uwmerge", "rt"], 3, nobj=2, wire_recs=[LAZY_RECS[1], LAZY_RECS[0], [154, 6, 2, 16, 5]],
        max_recs=1, flavs=LAZY_FLAVS[:2] if tier == "quick" else LAZY_FLAVS, laws=["AllWellFormed"])
